@@ -85,8 +85,11 @@ func c07Decode(c *Ctx, label string, holder reflect.Value, dst interface{}, doc 
 	} else if !bytes.Equal(before, input) && !strings.HasPrefix(label, "decoder") {
 		verdict = "the caller's input bytes were modified"
 	} else {
-		// the garbage collector and ordinary code can traverse the destination
-		runtime.GC()
+		// the garbage collector and ordinary code can traverse the destination (a collection empties
+		// the decoders' pools, so the populate step of a history does without it)
+		if !strings.HasSuffix(label, "-populate") {
+			runtime.GC()
+		}
 		_, p2 := safeDo(func() error { _ = fmt.Sprintf("%+v", holder.Interface()); return nil })
 		if p2 != "" {
 			verdict = "traversal panics: " + p2
@@ -121,6 +124,19 @@ func runC07(c *Ctx) {
 				label = "decoder"
 			}
 			c07Decode(c, label, h, h.Addr().Interface(), doc, []byte(doc))
+		}
+		// pooled working storage: a populated decode followed by a null-heavy document of the same
+		// shape into a fresh destination (what the first call left behind must not show in the second)
+		for round := 0; round < 3; round++ {
+			full := (&docGen{r: rng, noise: 0, nulls: 1}).forType(ht, 3)
+			h1 := reflect.New(ht).Elem()
+			c07FillCanaries(h1)
+			label := []string{"unmarshal", "decoder", "unmarshal"}[round]
+			c07Decode(c, label+"-populate", h1, h1.Addr().Interface(), full, []byte(full))
+			sparse := (&docGen{r: rng, noise: 0, nulls: 45}).forType(ht, 3)
+			hn := reflect.New(ht).Elem()
+			c07FillCanaries(hn)
+			c07Decode(c, label+"-after-populate", hn, hn.Addr().Interface(), sparse, []byte(sparse))
 		}
 		// a single field addressed inside a holder
 		t := g.Type(1 + rng.Intn(3))
